@@ -205,3 +205,38 @@ def check_obs(P, S, O):
     if not np.array_equal(O["action_mask"], S["action_mask"]):
         out.append("obs_action_mask: observation mask != state mask")
     return out
+
+
+# ------------------------------------------------------------------------------------------------ policies
+
+def _hamiltonian_cycle(R, C):
+    """next cell of each cell along a Hamiltonian cycle of the R x C board (None when both dimensions are odd or < 2)."""
+    if R < 2 or C < 2 or (R % 2 == 1 and C % 2 == 1):
+        return None
+    transpose = R % 2 == 1  # the construction needs an even number of rows
+    r_, c_ = (C, R) if transpose else (R, C)
+    order = []
+    for r in range(r_):
+        cols = range(1, c_) if r % 2 == 0 else range(c_ - 1, 0, -1)
+        order.extend((r, c) for c in cols)
+    order.extend((r, 0) for r in range(r_ - 1, -1, -1))
+    if transpose:
+        order = [(c, r) for r, c in order]
+    return {order[i]: order[(i + 1) % len(order)] for i in range(len(order))}
+
+
+def policies(P):
+    R, C = P.params["rows"], P.params["cols"]
+    nxt = _hamiltonian_cycle(R, C)
+    if nxt is None:
+        return {}
+
+    def perfect(ctx):
+        """Follows a Hamiltonian cycle of the board: never dies, eats every fruit, ends by filling the whole board."""
+        st = ctx["state"]
+        h = (int(st.head_position.row), int(st.head_position.col))
+        t = nxt[h]
+        d = (t[0] - h[0], t[1] - h[1])
+        return np.asarray(MOVES.index(d), np.int32)
+
+    return {"complete": perfect}
